@@ -112,6 +112,15 @@ class Monitor:
                     try:
                         offered = dt(cand)
                         r.count('drv_validate_after_conversion')
+                        # the conversion may move the value (a scaled value is rounded to its grid): the verdict on the
+                        # converted value is the one that counts; where the two differ nothing is demanded
+                        try:
+                            if refdt.is_number(cand) and refdt.is_number(B.plain(offered)) and \
+                                    refdt.classify_py(di, B.plain(offered), limits, stored=False) != exp:
+                                exp = 'either'
+                                r.count('drv_conversion_changed_the_class')
+                        except Exception:
+                            exp = 'either'
                     except Exception:
                         offered = cand
                 res = dt.validate(offered, previous=prev)
